@@ -49,11 +49,20 @@ def quantified(draw, depth):
 def seq(draw, depth):
     return ("seq", tuple(draw(st.lists(quantified(depth), min_size=1, max_size=3))))
 
+def _wordy(node) -> bool:
+    """Does this atom always consume a word character (so that a word boundary next to it is satisfiable)?"""
+    k = node[0]
+    if k == "lit": return node[1].isalnum() or node[1] == "_"
+    if k in ("digit", "word"): return True
+    if k == "class": return all((a.isalnum() or a == "_") and (b.isalnum() or b == "_") for a, b in node[1])
+    if k == "rep": return node[2] >= 1 and _wordy(node[1])
+    return False
+
 @st.composite
 def pattern(draw, depth=1):
     body = draw(seq(depth))
-    start = draw(st.sampled_from(["", "^", "^", "\\A"] if False else ["", "^", "^"]))
-    end = draw(st.sampled_from(["", "$", "$"]))
+    start = draw(st.sampled_from(["", "^", "^"] + (["\\b"] if _wordy(body[1][0]) else [])))
+    end = draw(st.sampled_from(["", "$", "$"] + (["\\b"] if _wordy(body[1][-1]) else [])))
     return ("pat", start, body, end)
 
 def _esc(ch):
@@ -90,8 +99,9 @@ def matching(draw, node, filler=st.sampled_from("abz09_")):
     k = node[0]
     if k == "pat":
         body = draw(matching(node[2]))
-        pre = "" if node[1] else draw(st.text(alphabet="qQ7 ", max_size=3))
-        post = "" if node[3] else draw(st.text(alphabet="qQ7 ", max_size=3))
+        # a word boundary is not an anchor: the match may sit anywhere, next to a non-word character or a string end
+        pre = draw(st.sampled_from(["", "", " ", "q7 ", "- "])) if node[1] == "\\b" else "" if node[1] else draw(st.text(alphabet="qQ7 ", max_size=3))
+        post = draw(st.sampled_from(["", "", " ", " q7", " -"])) if node[3] == "\\b" else "" if node[3] else draw(st.text(alphabet="qQ7 ", max_size=3))
         return pre + body + post
     if k == "seq": return "".join(draw(matching(x)) for x in node[1])
     if k == "lit": return node[1]
